@@ -144,6 +144,14 @@ def run(ctx):
                 for rel in ws.workspace_py():
                     if rel.endswith("conftest.py"):
                         vh.call(op="close", db=db, path=ws.abs(rel))
+                # ... and the other modules of the chain (workspace plugin module, imported modules) were opened, closed
+                # and opened again with unchanged text
+                for rel in ws.workspace_py():
+                    if not rel.endswith("conftest.py") and not os.path.basename(rel).startswith("test_") and rel.endswith(".py"):
+                        f_ = ws.abs(rel)
+                        vh.call(op="analyze", db=db, path=f_, text=ws.files[rel])
+                        vh.call(op="close", db=db, path=f_)
+                        vh.call(op="analyze", db=db, path=f_, text=ws.files[rel])
                 ctx.nontrivial(("phase", "conftests_closed"))
                 judge_workspace(ctx, ws, model, order, "vh",
                                 goto=lambda f, l, c: _vh_goto(vh, db, f, l, c),
